@@ -134,29 +134,45 @@ theorem writeArgs_read (w F : Nat) (hw : 0 < w) : ∀ (args : List Int) (m : Mem
       rw [show i + 1 + j + 2 = i + (j + 1) + 2 from by omega] at this
       exact this
 
-theorem initMem_size (cf : Config) (args : List Int) (pr : CProg) :
-    (initMem cf args pr).size = 5 * cf.w + cf.stackWords * cf.w + args.length * cf.w + cf.w := by
-  unfold initMem
-  simp only [writeArgs_size, Mem.size_writeLE, zsize]
-
 section init
 variable (cf : Config) (args : List Int) (pr : CProg)
 
 /-- address of the frame pointer of the entry point -/
 abbrev F0 : Nat := 5 * cf.w + cf.stackWords * cf.w + args.length * cf.w + cf.w
 
+/-- the words `try_fp` and `defeat` behind the entry frame, in programs with a `try/stop` -/
+def regsLen (w : Nat) (pr : CProg) : Nat := if hasStop pr.body then 2 * w else 0
+
 theorem F0_args : (0 + args.length + 1) * cf.w ≤ F0 cf args := by
   unfold F0; simp only [Nat.zero_add, Nat.add_mul, Nat.one_mul]; omega
 
+theorem initBase_size : (initBase cf args.length pr).size = F0 cf args + regsLen cf.w pr := by
+  unfold initBase regsLen
+  split <;> simp only [Mem.size_writeLE, zsize]
+
+theorem initMem_size : (initMem cf args pr).size = F0 cf args + regsLen cf.w pr := by
+  unfold initMem; rw [writeArgs_size, initBase_size]
+
+/-- below the words behind the entry frame the state is the one of a program without them -/
+theorem initBase_low (x k : Nat) (hx : x + k ≤ F0 cf args) :
+    (initBase cf args.length pr).readLE x k =
+      ((((⟨Array.replicate (F0 cf args + regsLen cf.w pr) 0⟩ : Mem).writeLE 0 cf.w (5 * cf.w)).writeLE cf.w cf.w (F0 cf args)).writeLE (F0 cf args - cf.w) cf.w
+        (progLen cf.checked pr + off_all_is_win)).readLE x k := by
+  unfold initBase regsLen
+  split
+  · rw [Mem.readLE_writeLE_disj _ _ _ _ _ _ (by unfold F0 at hx; omega)]
+  · rfl
+
 theorem initMem_low (hw : 2 ≤ cf.w) (x k : Nat) (hx : x + k ≤ 5 * cf.w) :
     (initMem cf args pr).readLE x k =
-      ((((⟨Array.replicate (F0 cf args) 0⟩ : Mem).writeLE 0 cf.w (5 * cf.w)).writeLE cf.w cf.w (F0 cf args)).writeLE (F0 cf args - cf.w) cf.w
+      ((((⟨Array.replicate (F0 cf args + regsLen cf.w pr) 0⟩ : Mem).writeLE 0 cf.w (5 * cf.w)).writeLE cf.w cf.w (F0 cf args)).writeLE (F0 cf args - cf.w) cf.w
         (progLen cf.checked pr + off_all_is_win)).readLE x k := by
+  rw [← initBase_low cf args pr x k (by unfold F0; omega)]
   unfold initMem
   exact Mem.readLE_congr _ _ _ _ (fun y h1 h2 => writeArgs_other cf.w _ args _ 0 y (F0_args cf args)
     (Or.inl (by
       have : (0 + args.length + 1) * cf.w = args.length * cf.w + cf.w := by simp only [Nat.zero_add, Nat.add_mul, Nat.one_mul]
-      unfold F0 at *; omega)))
+      omega)))
 
 theorem initMem_fp (hw : 2 ≤ cf.w) (hSE : F0 cf args < 256 ^ cf.w) :
     (initMem cf args pr).readLE cf.w cf.w = F0 cf args := by
@@ -173,26 +189,34 @@ theorem initMem_ap (hw : 2 ≤ cf.w) : (initMem cf args pr).readLE 0 cf.w = 5 * 
 
 theorem initMem_ra (hw : 2 ≤ cf.w) (hB : progLen cf.checked pr + stdlibLength < 256 ^ cf.w) :
     (initMem cf args pr).readLE (F0 cf args - cf.w) cf.w = progLen cf.checked pr + off_all_is_win := by
-  unfold initMem
-  have : (writeArgs cf.w (F0 cf args) ((((⟨Array.replicate (F0 cf args) 0⟩ : Mem).writeLE 0 cf.w (5 * cf.w)).writeLE cf.w cf.w (F0 cf args)).writeLE (F0 cf args - cf.w) cf.w
-        (progLen cf.checked pr + off_all_is_win)) 0 args).readLE (F0 cf args - cf.w) cf.w
-      = ((((⟨Array.replicate (F0 cf args) 0⟩ : Mem).writeLE 0 cf.w (5 * cf.w)).writeLE cf.w cf.w (F0 cf args)).writeLE (F0 cf args - cf.w) cf.w
-        (progLen cf.checked pr + off_all_is_win)).readLE (F0 cf args - cf.w) cf.w :=
-    Mem.readLE_congr _ _ _ _ (fun y h1 h2 => writeArgs_other cf.w _ args _ 0 y (F0_args cf args)
+  have : (initMem cf args pr).readLE (F0 cf args - cf.w) cf.w = (initBase cf args.length pr).readLE (F0 cf args - cf.w) cf.w := by
+    unfold initMem
+    exact Mem.readLE_congr _ _ _ _ (fun y h1 h2 => writeArgs_other cf.w _ args _ 0 y (F0_args cf args)
       (Or.inr (by simp only [Nat.zero_add, Nat.one_mul]; exact h1)))
-  show (writeArgs cf.w (F0 cf args) _ 0 args).readLE (F0 cf args - cf.w) cf.w = _
-  rw [this, Mem.readLE_writeLE_same _ _ _ _ (by simp only [Mem.size_writeLE, zsize]; unfold F0; omega)]
+  rw [this, initBase_low cf args pr _ _ (by unfold F0; omega),
+    Mem.readLE_writeLE_same _ _ _ _ (by simp only [Mem.size_writeLE, zsize]; unfold F0; omega)]
   exact Nat.mod_eq_of_lt (by simp [off_all_is_win, stdlibLength] at *; omega)
 
 theorem initMem_arg (hw : 2 ≤ cf.w) (j : Nat) (hj : j < args.length) :
     (initMem cf args pr).readLE (F0 cf args - (j + 2) * cf.w) cf.w = wrapI (256 ^ cf.w) args[j] := by
   unfold initMem
-  have := writeArgs_read cf.w (F0 cf args) (by omega) args
-    ((((⟨Array.replicate (F0 cf args) 0⟩ : Mem).writeLE 0 cf.w (5 * cf.w)).writeLE cf.w cf.w (F0 cf args)).writeLE (F0 cf args - cf.w) cf.w
-        (progLen cf.checked pr + off_all_is_win)) 0 j hj (F0_args cf args)
-    (by simp only [Mem.size_writeLE, zsize]; exact Nat.le_refl _)
+  have := writeArgs_read cf.w (F0 cf args) (by omega) args (initBase cf args.length pr) 0 j hj (F0_args cf args)
+    (by rw [initBase_size]; omega)
   rw [Nat.zero_add] at this
   exact this
+
+/-- programs with a `try/stop` start with `defeat = halt` -/
+theorem initMem_defeat (hw : 2 ≤ cf.w) (hs : hasStop pr.body = true) (hB : progLen cf.checked pr + stdlibLength < 256 ^ cf.w) :
+    (initMem cf args pr).readLE (F0 cf args + cf.w) cf.w = progLen cf.checked pr + off_halt := by
+  have : (initMem cf args pr).readLE (F0 cf args + cf.w) cf.w = (initBase cf args.length pr).readLE (F0 cf args + cf.w) cf.w := by
+    unfold initMem
+    exact Mem.readLE_congr _ _ _ _ (fun y h1 h2 => writeArgs_other cf.w _ args _ 0 y (F0_args cf args)
+      (Or.inr (by simp only [Nat.zero_add, Nat.one_mul, F0] at h1 ⊢; omega)))
+  rw [this]
+  unfold initBase
+  simp only [hs, if_true]
+  rw [Mem.readLE_writeLE_same _ _ _ _ (by simp only [Mem.size_writeLE, zsize, F0]; omega)]
+  exact Nat.mod_eq_of_lt (by simp [off_halt, off_all_is_win, stdlibLength] at *; omega)
 end init
 
 /-! ## the entry frame: parameters bound to the arguments -/
@@ -223,16 +247,16 @@ def terminalEvs : Res → List Ev
 
 /-- the static conditions of `wfProg`, as the proofs use them -/
 theorem wfProg_parts {pr : CProg} (h : wfProg pr = true) :
-    pr.params.Nodup ∧ wfS pr.params pr.body = true ∧ youLevel pr.body = true ∧ noFall pr.body = true ∧
+    pr.params.Nodup ∧ wfS false pr.params pr.body = true ∧ youLevel (hasStop pr.body) pr.body = true ∧ noFall pr.body = true ∧
     escFree false pr.body = true ∧ (pr.funs.map (·.name)).Nodup ∧
-    ∀ fd ∈ pr.funs, fd.params.Nodup ∧ wfS fd.params fd.body = true ∧ plain fd.body = true := by
+    ∀ fd ∈ pr.funs, fd.params.Nodup ∧ wfS false fd.params fd.body = true ∧ plain fd.body = true := by
   simp only [wfProg, Bool.and_eq_true, decide_eq_true_eq, List.all_eq_true] at h
-  obtain ⟨⟨⟨⟨⟨⟨⟨h1, h2⟩, h3⟩, h4⟩, h4'⟩, _⟩, h5⟩, h6⟩ := h
+  obtain ⟨⟨⟨⟨⟨⟨⟨⟨h1, h2⟩, h3⟩, h4⟩, h4'⟩, _⟩, _⟩, h5⟩, h6⟩ := h
   exact ⟨h1, h2, h3, h4, h4', h5, fun fd hfd => ⟨(h6 fd hfd).1.1.1, (h6 fd hfd).1.1.2, (h6 fd hfd).1.2⟩⟩
 
 /-- the facts about the function table that `cS_ok` needs, for the program `coreProg` -/
 theorem core_fnsOK (cf : Config) (pr : CProg) (hwf : wfProg pr = true) :
-    FnsOK (coreProg cf pr) cf.checked (progLen cf.checked pr) (progFA cf.checked pr) pr.funs := by
+    FnsOK (coreProg cf pr) cf.checked (progLen cf.checked pr) (defeatAddr cf pr) (progFA cf.checked pr) pr.funs := by
   obtain ⟨_, _, _, _, _, hnames, hfd⟩ := wfProg_parts hwf
   have hall : PlacedAt (coreProg cf pr) 0 (progCode cf pr) :=
     (placedAt_toArray_append cf.w (progCode cf pr) (stdlibCode cf.w (progLen cf.checked pr)) ⟨#[]⟩).1
@@ -242,7 +266,7 @@ theorem core_fnsOK (cf : Config) (pr : CProg) (hwf : wfProg pr = true) :
   have hp := funs_placed (coreProg cf pr) (mkCx cf pr) (progFA cf.checked pr) pr.funs (funcLen cf.checked pr.body) hnames h2
   refine ⟨fun fd h => (hp fd h).1, fun fd h => ?_, fun fd h => (hfd fd h).1, fun fd h => (hfd fd h).2.1, fun fd h => (hfd fd h).2.2⟩
   have := (hp fd h).2
-  rw [show funcCode (cxOf (coreProg cf pr) cf.checked (progLen cf.checked pr)) = funcCode (mkCx cf pr) from rfl,
+  rw [show funcCode (cxOf (coreProg cf pr) cf.checked (progLen cf.checked pr) (defeatAddr cf pr)) = funcCode (mkCx cf pr) from rfl,
     funcCode_len]
   exact this
 
@@ -250,12 +274,12 @@ theorem core_fnsOK (cf : Config) (pr : CProg) (hwf : wfProg pr = true) :
 theorem init_inv (cf : Config) (args : List Int) (pr : CProg) (hw : 2 ≤ cf.w)
     (hB : progLen cf.checked pr + stdlibLength < 256 ^ cf.w) (hSE : F0 cf args < 256 ^ cf.w)
     (hnd : pr.params.Nodup) (hlen : args.length = pr.params.length) :
-    SInv (coreProg cf pr) (paramGam cf.w (2 * cf.w) pr.params) (argEnv (256 ^ cf.w) pr.params args) (initMem cf args pr)
+    SInv (coreProg cf pr) .you (paramGam cf.w (2 * cf.w) pr.params) (argEnv (256 ^ cf.w) pr.params args) (initMem cf args pr)
       (F0 cf args) (cf.stackWords * cf.w + args.length * cf.w + cf.w) (entryOff cf.w pr.params)
       (progLen cf.checked pr + off_all_is_win) := by
   have hF : F0 cf args = 5 * cf.w + cf.stackWords * cf.w + args.length * cf.w + cf.w := rfl
-  refine ⟨⟨initMem_fp cf args pr hw hSE, initMem_ap cf args pr hw, by rw [initMem_size]; exact Nat.le_refl _, hSE,
-    by show 5 * cf.w + _ = _; rw [hF]; omega⟩, ?_, initMem_ra cf args pr hw hB⟩
+  refine ⟨⟨initMem_fp cf args pr hw hSE, initMem_ap cf args pr hw, by rw [initMem_size]; omega, hSE,
+    by show 5 * cf.w + _ = _; rw [hF]; omega⟩, ?_, initMem_ra cf args pr hw hB, fun _ _ e => by cases e⟩
   have hs := slots_of_reads cf.w (initMem cf args pr) (F0 cf args) args 0
     (fun j hj => by rw [Nat.zero_add]; exact initMem_arg cf args pr hw j hj)
   rw [Nat.zero_add] at hs
@@ -276,7 +300,7 @@ abbrev srcRun (cf : Config) (fuel : Nat) (args : List Int) (pr : CProg) : Option
     (argEnv (256 ^ cf.w) pr.params args) pr.body
 
 theorem core_correct (cf : Config) (args : List Int) (pr : CProg) (hw : 2 ≤ cf.w)
-    (hB : progLen cf.checked pr + stdlibLength < 256 ^ cf.w) (hSE : F0 cf args < 256 ^ cf.w)
+    (hB : progLen cf.checked pr + stdlibLength < 256 ^ cf.w) (hSE : F0 cf args + regsLen cf.w pr < 256 ^ cf.w)
     (hwf : wfProg pr = true) (hlen : args.length = pr.params.length)
     (fuel : Nat) (env' : Env) (tr : List Ev) (res : Res)
     (hex : srcRun cf fuel args pr = some (env', tr, res))
@@ -302,7 +326,14 @@ theorem core_correct (cf : Config) (args : List Int) (pr : CProg) (hw : 2 ≤ cf
   change exec (256 ^ cf.w) (8 * cf.w) pr.funs cf.w fuel (cf.stackWords * cf.w + args.length * cf.w + cf.w)
     (entryOff cf.w pr.params) (argEnv (256 ^ cf.w) pr.params args) pr.body = some (env', tr, res) at hex
   obtain ⟨hnd, hwfb, hyl, hnf, hesc, _, _⟩ := wfProg_parts hwf
-  have hinv0 := init_inv cf args pr hw hB hSE hnd hlen
+  have hSE0 : F0 cf args < 256 ^ cf.w := by omega
+  have hinv0 := init_inv cf args pr hw hB hSE0 hnd hlen
+  have hregs : hasStop pr.body = true → defeatAddr cf pr = F0 cf args + (coreProg cf pr).w ∧
+      F0 cf args + 2 * (coreProg cf pr).w ≤ (initMem cf args pr).size ∧ F0 cf args + 2 * (coreProg cf pr).w < 256 ^ (coreProg cf pr).w := by
+    intro hs
+    have hr : regsLen cf.w pr = 2 * cf.w := by simp [regsLen, hs]
+    refine ⟨by show defeatAddr cf pr = F0 cf args + cf.w; unfold defeatAddr F0; rw [hlen], by rw [initMem_size, hr]; exact Nat.le_refl _, ?_⟩
+    show F0 cf args + 2 * cf.w < 256 ^ cf.w; omega
   have h64 := mul_w_lt_pow cf.w hw
   have hM := pow_ge2 cf.w hw
   have hF : F0 cf args = 5 * cf.w + cf.stackWords * cf.w + args.length * cf.w + cf.w := rfl
@@ -313,17 +344,17 @@ theorem core_correct (cf : Config) (args : List Int) (pr : CProg) (hw : 2 ≤ cf
     (placedAt_toArray_append cf.w (progCode cf pr) (stdlibCode cf.w (progLen cf.checked pr)) ⟨#[]⟩).1
   unfold progCode at hall
   have hcodeP : PlacedAt (coreProg cf pr) 0
-      (funcCode (cxOf (coreProg cf pr) cf.checked (progLen cf.checked pr)) (progFA cf.checked pr) 0 pr.params pr.body) :=
+      (funcCode (cxOf (coreProg cf pr) cf.checked (progLen cf.checked pr) (defeatAddr cf pr)) (progFA cf.checked pr) 0 pr.params pr.body) :=
     hall.append.1
-  have hcodeLen : (funcCode (cxOf (coreProg cf pr) cf.checked (progLen cf.checked pr)) (progFA cf.checked pr) 0 pr.params pr.body).length
+  have hcodeLen : (funcCode (cxOf (coreProg cf pr) cf.checked (progLen cf.checked pr) (defeatAddr cf pr)) (progFA cf.checked pr) 0 pr.params pr.body).length
       = funcLen cf.checked pr.body := funcCode_len _ _ _ _ _
   have hfl : funcLen cf.checked pr.body ≤ progLen cf.checked pr := by unfold progLen; omega
   have hpro := (prologue_ok (ck := cf.checked) lib (progFA cf.checked pr) 0 pr.params pr.body (initMem cf args pr)
     (F0 cf args) (cf.stackWords * cf.w + args.length * cf.w + cf.w) hinv0.fr hcodeP (by rw [hcodeLen]; omega)
-    (by show pkS cf.w (entryOff cf.w pr.params) pr.body < 256 ^ cf.w; rw [hF] at hSE; omega)).1
+    (by show pkS cf.w (entryOff cf.w pr.params) pr.body < 256 ^ cf.w; rw [hF] at hSE0; omega)).1
     (by show pkS cf.w (entryOff cf.w pr.params) pr.body ≤ F0 cf args - 5 * cf.w; rw [hF]; omega)
   have hbodyP : PlacedAt (coreProg cf pr) (0 + prologueLen cf.checked)
-      (cS (cxOf (coreProg cf pr) cf.checked (progLen cf.checked pr)) (progFA cf.checked pr) (0, 0)
+      (cS (cxOf (coreProg cf pr) cf.checked (progLen cf.checked pr) (defeatAddr cf pr)) (progFA cf.checked pr) ⟨0, 0, false⟩
         (paramGam cf.w (2 * cf.w) pr.params) (0 + prologueLen cf.checked) (entryOff cf.w pr.params) pr.body) := by
     have := hcodeP
     unfold funcCode at this
@@ -333,21 +364,21 @@ theorem core_correct (cf : Config) (args : List Int) (pr : CProg) (hw : 2 ≤ cf
   have hpw : p.w = cf.w := by rw [← hp]; rfl
   generalize hBdef : progLen cf.checked pr = B at *
   have hbodyLen : 0 + prologueLen cf.checked +
-      (cS (cxOf p cf.checked B) (progFA cf.checked pr) (0, 0) (paramGam cf.w (2 * cf.w) pr.params) (0 + prologueLen cf.checked)
+      (cS (cxOf p cf.checked B (defeatAddr cf pr)) (progFA cf.checked pr) ⟨0, 0, false⟩ (paramGam cf.w (2 * cf.w) pr.params) (0 + prologueLen cf.checked)
         (entryOff cf.w pr.params) pr.body).length = funcLen cf.checked pr.body := by
-    rw [cS_len]; show 0 + prologueLen cf.checked + lenS cf.checked pr.body = prologueLen cf.checked + lenS cf.checked pr.body; omega
+    rw [cS_len]; show 0 + prologueLen cf.checked + lenS cf.checked false pr.body = prologueLen cf.checked + lenS cf.checked false pr.body; omega
   have hbody := cS_ok (ck := cf.checked) lib fok fuel (F0 cf args) (cf.stackWords * cf.w + args.length * cf.w + cf.w)
-    (B + off_all_is_win) (by rw [hpw]; simp [off_all_is_win, stdlibLength] at *; omega) (0, 0) ⟨by show 0 < 256 ^ p.w; rw [hpw]; omega, by show 0 < 256 ^ p.w; rw [hpw]; omega⟩
+    (B + off_all_is_win) (by rw [hpw]; simp [off_all_is_win, stdlibLength] at *; omega) ⟨0, 0, false⟩ ⟨by show 0 < 256 ^ p.w; rw [hpw]; omega, by show 0 < 256 ^ p.w; rw [hpw]; omega⟩ .you (hasStop pr.body)
     pr.body (paramGam cf.w (2 * cf.w) pr.params) (argEnv (256 ^ cf.w) pr.params args) (0 + prologueLen cf.checked)
     (entryOff cf.w pr.params)
   rw [hpw] at hbody
-  have hnd' : res ≠ .defeat := exec_no_defeat _ _ _ _ _ _ _ _ _ _ _ _ hyl hex
+  have hnd' : res ≠ .defeat := exec_no_defeat _ _ _ _ _ _ _ _ _ _ _ _ _ hyl hex
   have hnn : res ≠ .norm := exec_noFall _ _ _ _ _ _ _ _ _ _ _ _ hnf hex
   have hne := exec_noEsc _ _ _ _ _ _ _ _ _ _ _ _ hesc hex
   -- where the entry function can end: win, or the division_by_zero stub
-  have hsafe : ∀ st', Post p B (B + off_all_is_win) (0, 0) (paramGam cf.w (2 * cf.w) pr.params) env' (F0 cf args)
+  have hsafe : ∀ st', Post p B (B + off_all_is_win) ⟨0, 0, false⟩ .you (paramGam cf.w (2 * cf.w) pr.params) env' (F0 cf args)
       (cf.stackWords * cf.w + args.length * cf.w + cf.w) (entryOff cf.w pr.params)
-      (0 + prologueLen cf.checked + (cS (cxOf p cf.checked B) (progFA cf.checked pr) (0, 0) (paramGam cf.w (2 * cf.w) pr.params)
+      (0 + prologueLen cf.checked + (cS (cxOf p cf.checked B (defeatAddr cf pr)) (progFA cf.checked pr) ⟨0, 0, false⟩ (paramGam cf.w (2 * cf.w) pr.params)
         (0 + prologueLen cf.checked) (entryOff cf.w pr.params) pr.body).length) (initMem cf args pr) res st' →
       ¬ Halts (sphinx p) st' ∧ ∃ mEnd, Reach (sphinx p) st' (terminalEvs res) ⟨tntPc B, mEnd⟩ := by
     intro st' hp'
@@ -365,7 +396,7 @@ theorem core_correct (cf : Config) (args : List Int) (pr : CProg) (hw : 2 ≤ cf
   obtain ⟨st', r, hpost⟩ := (hbody (initMem cf args pr) env' tr res hbodyP (by omega) hinv0
     (disj_paramGam cf.w pr.params (2 * cf.w) hnd)
     (by rw [map_fst_paramGam]; exact hwfb) hroom (by rw [heo]; omega) hex hfo
-    (Or.inr ⟨hyl, fun st' h => (hsafe st' h).1⟩)).2 hnd'
+    (Or.inr ⟨rfl, rfl, hyl, hregs, fun st' h => (hsafe st' h).1⟩)).2 (nd hnd')
   obtain ⟨mEnd, rend⟩ := (hsafe st' hpost).2
   have rall := (hpro.trans r).trans rend
   have nh := tnt_never_halts lib mEnd
@@ -392,7 +423,7 @@ theorem core_overflow (cf : Config) (args : List Int) (pr : CProg) (hw : 2 ≤ c
     (placedAt_toArray_append cf.w (progCode cf pr) (stdlibCode cf.w (progLen cf.checked pr)) ⟨#[]⟩).1
   unfold progCode at hall
   have hcodeP : PlacedAt (coreProg cf pr) 0
-      (funcCode (cxOf (coreProg cf pr) cf.checked (progLen cf.checked pr)) (progFA cf.checked pr) 0 pr.params pr.body) :=
+      (funcCode (cxOf (coreProg cf pr) cf.checked (progLen cf.checked pr) (defeatAddr cf pr)) (progFA cf.checked pr) 0 pr.params pr.body) :=
     hall.append.1
   have hfl : funcLen cf.checked pr.body ≤ progLen cf.checked pr := by unfold progLen; omega
   obtain ⟨m1, r1⟩ := (prologue_ok (ck := cf.checked) lib (progFA cf.checked pr) 0 pr.params pr.body (initMem cf args pr)
@@ -415,20 +446,20 @@ theorem srcRun_stack_mono (w S S' : Nat) (ck : Bool) (hS : S ≤ S') (fuel : Nat
 /-- however a statement list without `try` is left — falling through, `return`, `return e` — after any
 number of loop iterations and calls inside it, the frame pointer, `ap` and all memory at and above the
 frame pointer are what they were when it was entered -/
-theorem core_frame_restored {p : Prog} {ck : Bool} {B : Nat} {fa : FAddr} {fns : List FDecl}
-    (lib : Placed p B) (fok : FnsOK p ck B fa fns) (fuel F D ra : Nat) (hra : ra < 256 ^ p.w)
-    (lp : Nat × Nat) (hlp : lp.1 < 256 ^ p.w ∧ lp.2 < 256 ^ p.w) (s : S) (Γ : Gam) (env : Env) (pc o : Nat) (m : Mem) (env' : Env) (tr : List Ev) (res : Res)
-    (hpl : PlacedAt p pc (cS (cxOf p ck B) fa lp Γ pc o s))
-    (hB : pc + (cS (cxOf p ck B) fa lp Γ pc o s).length ≤ B)
-    (hinv : SInv p Γ env m F D o ra) (hd : Disj p.w Γ) (hwf : wfS (Γ.map Prod.fst) s = true)
+theorem core_frame_restored {p : Prog} {ck : Bool} {B dA : Nat} {fa : FAddr} {fns : List FDecl}
+    (lib : Placed p B) (fok : FnsOK p ck B dA fa fns) (fuel F D ra : Nat) (hra : ra < 256 ^ p.w)
+    (lp : Jt) (hlp : lp.cont < 256 ^ p.w ∧ lp.brk < 256 ^ p.w) (hvd : lp.vd = false) (s : S) (Γ : Gam) (env : Env) (pc o : Nat) (m : Mem) (env' : Env) (tr : List Ev) (res : Res)
+    (hpl : PlacedAt p pc (cS (cxOf p ck B dA) fa lp Γ pc o s))
+    (hB : pc + (cS (cxOf p ck B dA) fa lp Γ pc o s).length ≤ B)
+    (hinv : SInv p .plain Γ env m F D o ra) (hd : Disj p.w Γ) (hwf : wfS false (Γ.map Prod.fst) s = true)
     (hpk : pkS p.w o s ≤ D) (ho : p.w ≤ o) (hnt : noTry s = true)
     (hex : exec (256 ^ p.w) (8 * p.w) fns p.w fuel D o env s = some (env', tr, res))
     (hres : res = .norm ∨ res = .returned ∨ ∃ v, res = .retv v) :
     ∃ st', Reach (sphinx p) ⟨pc, m⟩ tr st' ∧ Keep p.w m st'.mem F ∧ st'.mem.readLE p.w p.w = F ∧
-      (res = .norm → st'.pc = pc + (cS (cxOf p ck B) fa lp Γ pc o s).length) ∧ (res ≠ .norm → st'.pc = ra) := by
-  have hc := cS_ok lib fok fuel F D ra hra lp hlp s Γ env pc o m env' tr res hpl hB hinv hd hwf hpk ho hex
-    (by rcases hres with h | h | ⟨v, h⟩ <;> subst h <;> trivial) (Or.inl hnt)
-  obtain ⟨st', r, hp⟩ := hc.2 (by rcases hres with h | h | ⟨v, h⟩ <;> subst h <;> simp)
+      (res = .norm → st'.pc = pc + (cS (cxOf p ck B dA) fa lp Γ pc o s).length) ∧ (res ≠ .norm → st'.pc = ra) := by
+  have hc := cS_ok lib fok fuel F D ra hra lp hlp .plain false s Γ env pc o m env' tr res hpl hB hinv hd (by rw [hvd]; exact hwf) hpk ho hex
+    (by rcases hres with h | h | ⟨v, h⟩ <;> subst h <;> trivial) (Or.inl ⟨(by intro h; cases h), (by intro h; rw [hvd] at h; cases h), hnt⟩)
+  obtain ⟨st', r, hp⟩ := hc.2 (nd (by rcases hres with h | h | ⟨v, h⟩ <;> subst h <;> simp))
   have hfp := hinv.fr.fp
   rcases hres with h | h | ⟨v, h⟩ <;> subst h <;> simp only [Post] at hp
   · exact ⟨st', r, hp.2.2, (by rw [hp.2.2.fp]; exact hfp), fun _ => hp.1, fun h => absurd rfl h⟩
